@@ -503,11 +503,17 @@ macro_rules! impl_ind {
             fn display(&self) -> String {
                 // Display / Debug are also called the way column layouts and loggers call them: with width,
                 // fill, alignment and precision flags. The result of the plain form is what gets compared.
-                let _ = (format!("{:>24}", self), format!("{:<4}", self), format!("{:^9.3}", self), format!("{:16.16}", self), format!("{:.40}", self), format!("{:*^30}", self), format!("{:.0}", self));
+                // (under Miri, where every formatted byte costs microseconds, two of the flagged forms)
+                let _ = (format!("{:>24}", self), format!("{:16.16}", self));
+                if !cfg!(miri) {
+                    let _ = (format!("{:<4}", self), format!("{:^9.3}", self), format!("{:.40}", self), format!("{:*^30}", self), format!("{:.0}", self));
+                }
                 format!("{}", self)
             }
             fn debug(&self) -> String {
-                let _ = (format!("{:#?}", self), format!("{:40.2?}", self), format!("{:<1?}", self));
+                if !cfg!(miri) {
+                    let _ = (format!("{:#?}", self), format!("{:40.2?}", self), format!("{:<1?}", self));
+                }
                 format!("{:?}", self)
             }
             fn period(&self) -> Option<usize> {
@@ -538,7 +544,7 @@ macro_rules! impl_ind {
                 }
                 // the impls must not depend on one encoder configuration: the restored value goes through bincode's
                 // variable-length integer / big-endian options once more and must come back as the same state
-                {
+                if !cfg!(miri) {
                     use bincode::Options;
                     let o = bincode::options().with_varint_encoding().with_big_endian();
                     let vb = o.serialize(&x).map_err(|e| format!("serialize (varint, big-endian): {}", e))?;
